@@ -74,6 +74,9 @@ def judge(W, run, trace):
     def bump(k):
         fired[k] = fired.get(k, 0) + 1
 
+    if (run.get("cfg") or {}).get("names"):
+        bump("unusual_table_names")
+
     def model(nid):
         if nid not in models:
             models[nid] = NodeModel(V)
@@ -248,6 +251,8 @@ def judge(W, run, trace):
             tbl = ev[1]
             if tbl not in m.tables:
                 continue
+            if not is_err(out) and out.get("edited"):
+                bump("caller_edits_returned_list")
             role = "public" if tbl == "public" else "private"
             if is_err(out):
                 v(i, "owned_result:" + ev[3], "exception:" + out[1], "unchanged", out, role)
